@@ -176,6 +176,12 @@ func (p *stagePub) Publish(topic string, msgs ...*message.Message) error {
 	w.events.Add(1)
 	switch k {
 	case "publisher-error":
+		switch (p.stage + call) % 3 { // the error value must not matter
+		case 1:
+			return context.Canceled
+		case 2:
+			return fmt.Errorf("injected publisher error: %w", context.Canceled)
+		}
 		return errors.New("injected publisher error")
 	case "publisher-panic":
 		panic("injected publisher panic")
@@ -237,6 +243,12 @@ func run(e *vlib.Env) vlib.Result {
 			w.events.Add(1)
 			switch k {
 			case "handler-error":
+				switch (stage + call) % 3 {
+				case 1:
+					return nil, context.Canceled
+				case 2:
+					return nil, fmt.Errorf("injected handler error: %w", context.DeadlineExceeded)
+				}
 				return nil, errors.New("injected handler error")
 			case "handler-panic":
 				panic("injected handler panic")
